@@ -441,6 +441,8 @@ def replay(prop: str, path: str) -> int:
     with open(path) as f:
         rf = json.load(f)
     tape = Tape(replay=rf["tape"], keep_labels=True)
+    if os.environ.get("VERIF_SHOW_TRACE"):
+        os.environ["VERIF_WANT_TRACE"] = "1"
     res = run_one(prop, tape)
     if res["harness"]:
         print(f"REPLAY-HARNESS-ERROR {res['harness']}\n{res.get('tb', '')}")
